@@ -2,7 +2,9 @@ package gorums
 
 import (
 	"context"
+	"errors"
 	"fmt"
+	"io"
 	"math"
 	"math/rand"
 	"sync"
@@ -262,6 +264,11 @@ func (c *channel) sendMsg(req request) (err error) {
 
 	err = c.gorumsStream.SendMsg(req.msg)
 	if err != nil {
+		if errors.Is(err, io.EOF) {
+			// the stream has ended, and its status goes to whoever calls RecvMsg:
+			// report what the other paths report for a stream that is down.
+			err = streamDownErr
+		}
 		c.setLastErr(err)
 		c.streamBroken.set()
 	}
